@@ -219,6 +219,15 @@ def _decide(h, label, cond):
         return (label, 'discharged', None)
     if res == 'unknown':
         return (label, 'unknown', None)
+    if pc.products:
+        # counterexample under the product abstraction: refine with the exact products
+        exact = pc.exact_product_terms()
+        res, m = pc.query([neg] + exact, h.case.query_timeout_ms)
+        if res == 'unsat':
+            return (label, 'discharged', None)
+        if res == 'unknown':
+            return (label, 'unknown', None)
+        neg = z3.And(neg, *exact)
     # a counterexample on this path.  Is it outside every known finding?
     ks = _matching_known(h, label)
     kterms = []
@@ -333,7 +342,18 @@ def run_case(modname, case_index, tier, prop):
         h, bres = outcome[1]
         res['paths'] += 1
         try:
-            model = pathctx.current_model()
+            if pathctx.products:
+                r_, model = pathctx.query(pathctx.exact_product_terms(), 30000)
+                if r_ == 'unsat':
+                    # path exists only under the abstraction
+                    res['spurious'] = res.get('spurious', 0) + 1
+                    res['paths'] -= 1
+                    return
+                if r_ != 'sat':
+                    res['unvalidated'] = res.get('unvalidated', 0) + 1
+                    model = None
+            else:
+                model = pathctx.current_model()
         except PathAbort:
             res['paths'] -= 1
             res['aborted'] += 1
@@ -341,7 +361,7 @@ def run_case(modname, case_index, tier, prop):
         except Inconclusive as e:
             res['inconclusive'].append(str(e))
             return
-        inputs = _inputs_from_model(h, model)
+        inputs = _inputs_from_model(h, model) if model is not None else None
         # obligations
         viol_here = []
         for label, status, info in h.req_results:
@@ -369,6 +389,8 @@ def run_case(modname, case_index, tier, prop):
             else:
                 res['violations'].append(entry)
         # validation of this path against the pristine code
+        if model is None:
+            return
         cr = concrete_run(case, inputs, prop, known)
         sym_failed = set(l for l, _ in viol_here)
         if bres[0] == 'crash':
